@@ -4,6 +4,7 @@
 #include "pbt.hpp"
 #include "nngh.h"
 #include "rawpeer.h"
+#include <set>
 #include <deque>
 
 namespace {
@@ -27,6 +28,7 @@ struct Node {
 	rp                   peer;
 	nng_listener         sl;
 	std::vector<uint32_t> sent_after_stall;
+	std::set<uint32_t>    wire_own; // round 7: tags of forwards whose ORIGIN is the stalled wire peer (it must never read them)
 };
 
 struct World {
@@ -410,6 +412,40 @@ exec_c09(const vcase *vc)
 			H_OK(nng_socket_set_int(W.n[a].s, NNG_OPT_RECVBUF, b));
 			W.n[a].rcap = (size_t) b;
 			vr_tag("resize");
+		} else if (n == "wirefwd") {
+			// round 7: the stalled wire peer of RAW node 0 - whose pipe is busy with node 0's large messages - sends a message of
+			// its own; node 0 receives it (header = that pipe) and forwards it: it goes to every other neighbour and NOT back to
+			// the wire peer, however busy its pipe is at that moment
+			Node &R = W.n[0];
+			if (!R.raw || !R.stalled)
+				continue;
+			drain(W, 0, "before a wire peer's own message");
+			uint32_t wtag = 0x7f000000u | ++R.seq;
+			uint8_t  wb[24];
+			wb[0] = wtag >> 24; wb[1] = wtag >> 16; wb[2] = wtag >> 8; wb[3] = (uint8_t) wtag;
+			for (size_t i2 = 4; i2 < sizeof wb; i2++)
+				wb[i2] = (uint8_t) (wtag * 31 + (i2 - 4) * 7);
+			if (rp_send_msg(&R.peer, wb, sizeof wb) != 0)
+				continue;
+			vs_settle();
+			nng_msg *in = nullptr;
+			if (nng_recvmsg(R.s, &in, NNG_FLAG_NONBLOCK) != 0)
+				continue; // (receive queue full / dropped: nothing to forward)
+			if (nng_msg_header_len(in) != 4 || nng_msg_len(in) != sizeof wb || memcmp(nng_msg_body(in), wb, sizeof wb) != 0) {
+				nng_msg_free(in);
+				continue; // (something else was at the head of the queue; not the subject here)
+			}
+			uint32_t wpid = be32(nng_msg_header(in));
+			nng_msg_free(in);
+			uint32_t ftag = (0u << 24) | 0x800000 | ++R.seq;
+			nng_msg *fm   = h_msg(ftag, 20);
+			nng_msg_header_append_u32(fm, wpid);
+			int rv = nng_sendmsg(R.s, fm, NNG_FLAG_NONBLOCK);
+			VR_CHECK(rv == 0, "C09:send-blocked", "raw BUS forward of a wire peer's message returned %d", rv);
+			vs_settle();
+			deliver_model(W, 0, -1, ftag); // every neighbour NODE gets it (the origin is not a node)
+			R.wire_own.insert(ftag);
+			vr_tag("forward_of_busy_origin");
 		} else if (n == "fwd") { // raw node 0 forwards what it last received (header names the origin pipe)
 			Node &R = W.n[0];
 			if (!R.raw || R.last == nullptr)
@@ -468,6 +504,7 @@ exec_c09(const vcase *vc)
 			for (size_t i = 4; i < pn; i++)
 				VR_CHECK(pl[i] == (uint8_t) (tag * 31 + (i - 4) * 7), "C09:wire-corrupt", "frame %x corrupted at byte %zu", tag, i);
 			free(pl);
+			VR_CHECK(!K.wire_own.count(tag), "C09:echoed-to-origin", "the wire peer of raw node %d read %x, the forward of a message it had sent itself (its pipe was busy when the message was forwarded)", k, tag);
 			if ((tag >> 24) == (uint32_t) k && !(tag & 0x800000) && pn > 60000) {
 				bool found = false;
 				while (pos < K.sent_after_stall.size())
@@ -499,8 +536,9 @@ genOp()
 	return gen::exec([]() {
 		std::ostringstream o;
 		int a = *pbt::range<int>(0, N - 1), b = *pbt::range<int>(0, N - 1);
-		int k = *gen::weightedElement<int>({{12, 0}, {10, 1}, {5, 2}, {1, 3}, {2, 4}, {2, 5}, {4, 6}, {1, 7}, {3, 8}});
+		int k = *gen::weightedElement<int>({{12, 0}, {10, 1}, {5, 2}, {1, 3}, {2, 4}, {2, 5}, {4, 6}, {1, 7}, {3, 8}, {2, 9}});
 		switch (k) {
+		case 9: o << "stall 0\nbigsend 0 " << *gen::element(2, 3, 5) << "\nwirefwd"; break;
 		case 0: o << "send " << a << " " << *pbt::range<int>(0, 31); break;
 		case 1: o << "recv " << a; break;
 		case 2: o << "link " << a << " " << b; break;
